@@ -459,3 +459,138 @@ UNITS += [
     Unit("C20", "jsonargparse.typing:get_registered_type", grt_setup, grt_post, no_exc20, trusted=["get_import_path: its own unit (C14)"]),
     Unit("C20", "jsonargparse.typing:RegisteredType.is_value_of_type", ivt_setup, ivt_post, no_exc20),
 ]
+
+
+# ------------------------------------------------------------------------------------------------ extend_base_type / restricted_number_type (the factories)
+# extend_base_type: a key that is already registered gives back the registered class (same name) or is refused (another name) - a second
+# call never creates a second class for the same restriction; otherwise a new class `name` is created whose first base carries the
+# validation function, the base type and the extra attributes, with the base type as second base, and it is registered under the key.
+def ebt_setup(ctx):
+    reg = ["not-registered", "registered-same-name", "registered-other-name", "no-key"][ctx.choose(4, "register_key")]
+    extra = ctx.choose(2, "extra_attrs-given") == 1
+    key = None if reg == "no-key" else ("key",)
+    existing = Rec("registered class", attrs={"__name__": "Positive" if reg == "registered-same-name" else "Another"})
+    registry = {} if reg in ("not-registered", "no-key") else {key: existing}
+    vfn, base = Rec("validation_fn"), Rec("class int")
+    created = []
+
+    def type_model(c, a, k):
+        r = Rec("created class", attrs={"name": a[0], "bases": a[1], "ns": a[2]})
+        created.append(r)
+        return r
+
+    def setattr_model(c, a, k):
+        a[0].attrs[a[1]] = a[2]
+
+    calls = {"type": type_model, "setattr": setattr_model, "add_type": lambda c, a, k: c.event("add_type", a[0], a[1])}
+    env = {"name": "Positive", "base_type": base, "validation_fn": vfn, "docstring": "doc", "extra_attrs": {"_expression": "v>0", "_join": "and"} if extra else None, "register_key": key}
+    return Setup(env=env, calls=calls, consts={"registered_types": registry}, data=dict(reg=reg, extra=extra, key=key, existing=existing, registry=registry, vfn=vfn, base=base, created=created))
+
+
+def ebt_post(ctx, st, result):
+    d = st.data
+    tag = f"[{d['reg']},extra_attrs={'given' if d['extra'] else 'None'}]"
+    if d["reg"] == "registered-same-name":
+        ctx.oblige("post", "a-key-registered-under-the-same-name-gives-back-the-registered-class;nothing-is-created-or-registered-again" + tag, result is d["existing"] and not d["created"] and not ctx.events)
+        return
+    ctx.oblige("post", "returns-normally-only-if-the-key-is-new-or-registered-under-this-name" + tag, d["reg"] in ("not-registered", "no-key"))
+    ok = len(d["created"]) == 1 and result is d["created"][0]
+    core = None
+    if ok:
+        r = d["created"][0]
+        ok = r.attrs["name"] == "Positive" and isinstance(r.attrs["bases"], tuple) and len(r.attrs["bases"]) == 2 and r.attrs["bases"][1] is d["base"] and r.attrs["ns"] == {"__doc__": "doc"}
+        core = r.attrs["bases"][0] if ok else None
+    ctx.oblige("post", "one-class-of-that-name-is-created:bases(the validating core,the base type),docstring-as-given" + tag, ok)
+    if core is not None:
+        ok = isinstance(core, Rec) and core.attrs.get("_validation_fn") is d["vfn"] and core.attrs.get("_type") is d["base"] and "__new__" in core.attrs
+        if d["extra"]:
+            ok = ok and core.attrs.get("_expression") == "v>0" and core.attrs.get("_join") == "and"
+        ctx.oblige("post", "the-core-carries-the-validation-function,the-base-type,__new__-and-every-extra-attribute" + tag, ok)
+    ev = [e for e in ctx.events if e[0] == "add_type"]
+    ctx.oblige("post", "the-new-class-is-registered-under-the-key-given" + tag, len(ev) == 1 and ev[0][1] is result and ev[0][2] == d["key"])
+
+
+def ebt_raises(ctx, st, exc):
+    d = st.data
+    ctx.oblige("raises", f"refused=>ValueError-exactly-when-the-key-is-registered-under-another-name;nothing-created[{d['reg']}]", exc.cls == "ValueError" and d["reg"] == "registered-other-name" and not d["created"] and not ctx.events)
+
+
+# restricted_number_type: which (base_type, restrictions, join) are accepted, and that the comparisons reach the created class as
+# (operator function, reference) pairs in the order given, joined as asked; the registry key does not depend on the order of the restrictions.
+RNT_CASES = {
+    "one-tuple": (("int", (">", 0), "and"), True), "list-of-two": (("float", [(">=", 0.0), ("<=", 1.0)], "and"), True), "or-join": (("int", [("<", 0), (">", 10)], "or"), True),
+    "reference-of-the-other-number-type(equal value)": (("float", (">", 0), "and"), True), "same-restrictions-other-order": (("float", [("<=", 1.0), (">=", 0.0)], "and"), True),
+    "base-str": (("str", (">", 0), "and"), False), "join-xor": (("int", (">", 0), "xor"), False), "unknown-operator": (("int", ("=>", 0), "and"), False), "reference-not-of-the-base-type": (("int", (">", 0.5), "and"), False),
+    "restriction-of-three": (("int", [(">", 0, 1)], "and"), False), "restrictions-not-a-list": (("int", {(">", 0)}, "and"), False), "reference-text": (("int", (">", "0"), "and"), False),
+}
+
+
+def rnt_setup(ctx):
+    names = list(RNT_CASES)
+    case = names[ctx.choose(len(names), "case")]
+    (bt, restr, join), ok = RNT_CASES[case]
+    name_given = ctx.choose(2, "name-given") == 1
+    import operator
+    ops2 = {">": operator.gt, ">=": operator.ge, "<": operator.lt, "<=": operator.le, "==": operator.eq, "!=": operator.ne}
+    ops1 = {v: k for k, v in ops2.items()}
+    py = {"int": int, "float": float, "str": str}[bt]
+    base = Rec("class " + bt, attrs={"__name__": bt, "py": py})
+
+    def base_call(c, s_, a, k):
+        try:
+            return py(a[0])
+        except (TypeError, ValueError):
+            raise PyRaise(ExcVal("ValueError", args=("not convertible",), origin="base_type()"))
+    base.methods["__call__"] = base_call
+    base.methods["__eq__"] = lambda c, s_, a, k: a[0] is s_
+    base.methods["__hash__"] = lambda c, s_, a, k: hash(bt)
+    made = []
+    consts = {"int": base if bt == "int" else Rec("class int", attrs={"__name__": "int"}), "float": base if bt == "float" else Rec("class float", attrs={"__name__": "float"}),
+              "_operators2": {k: Rec("op " + v.__name__, attrs={"__name__": v.__name__, "sym": k}) for k, v in ops2.items()}}
+    consts["_operators1"] = {v: k for k, v in consts["_operators2"].items()}
+    calls = {"extend_base_type": lambda c, a, k: (made.append(dict(k)), Rec("created type"))[1]}
+    env = {"name": "MyType" if name_given else None, "base_type": base, "restrictions": restr, "join": join, "docstring": "doc"}
+    return Setup(env=env, calls=calls, consts=consts, data=dict(case=case, ok=ok, bt=bt, restr=restr, join=join, name_given=name_given, base=base, made=made, ops=consts["_operators2"]))
+
+
+def rnt_post(ctx, st, result):
+    d = st.data
+    tag = f"[{d['case']},name={'given' if d['name_given'] else 'None'}]"
+    ctx.oblige("post", "accepted=>base-int/float,join-and/or,restrictions-a-(operator,reference)-tuple-or-a-list-of-them-with-a-known-operator-and-a-reference-equal-to-itself-as-base-type" + tag, d["ok"])
+    if not d["ok"] or len(d["made"]) != 1:
+        ctx.oblige("post", "exactly-one-class-is-requested-from-extend_base_type" + tag, len(d["made"]) == 1)
+        return
+    k = d["made"][0]
+    restr = [d["restr"]] if isinstance(d["restr"], tuple) else list(d["restr"])
+    ea = k.get("extra_attrs") or {}
+    want_pairs = [(d["ops"][op], ref) for op, ref in restr]
+    got_pairs = ea.get("_restrictions") or []
+    ctx.oblige("post", "the-class-gets-the-comparisons-as-(operator function,reference)-in-the-order-given,the-join-word-and-the-base-type" + tag,
+               len(got_pairs) == len(want_pairs) and all(g[0] is w[0] and g[1] == w[1] and type(g[1]) is type(w[1]) for g, w in zip(got_pairs, want_pairs)) and ea.get("_join") == d["join"] and ea.get("_type") is d["base"]
+               and k.get("base_type") is d["base"] and k.get("docstring") == "doc")
+    expr = (" " + d["join"] + " ").join("v" + op + str(ref) for op, ref in restr)
+    ctx.oblige("post", "the-expression-shown-in-error-messages-states-exactly-these-comparisons" + tag, ea.get("_expression") == expr, note=f"{ea.get('_expression')!r} vs {expr!r}")
+    rk = k.get("register_key")
+    ctx.oblige("post", "the-registry-key-is(the restrictions as a sorted tuple,base type,join):the-same-restrictions-in-another-order-are-the-same-type" + tag,
+               isinstance(rk, tuple) and len(rk) == 3 and rk[0] == tuple(sorted(restr)) and rk[1] is d["base"] and rk[2] == d["join"])
+    if d["name_given"]:
+        ctx.oblige("post", "a-given-name-is-used" + tag, k.get("name") == "MyType")
+    else:
+        nm = d["bt"]
+        for num, (op, ref) in enumerate(restr):
+            nm += ("_" + d["join"] + "_" if num > 0 else "_") + d["ops"][op].attrs["__name__"] + str(ref).replace(".", "")
+        ctx.oblige("post", "without-a-name-one-is-composed-from-base-type,operators-and-references(so that equal restrictions get equal names)" + tag, k.get("name") == nm, note=f"{k.get('name')!r} vs {nm!r}")
+    ctx.oblige("post", "a-validation-function-is-handed-over(its own unit)" + tag, k.get("validation_fn") is not None)
+
+
+def rnt_raises(ctx, st, exc):
+    d = st.data
+    ctx.oblige("raises", f"refused=>ValueError,exactly-for-the-malformed-requests;no-class-created[{d['case']}]", exc.cls == "ValueError" and not d["ok"] and not d["made"])
+
+
+UNITS += [
+    Unit("C20", "jsonargparse.typing:extend_base_type", ebt_setup, ebt_post, ebt_raises, expect_cover=("return", "raise:ValueError"),
+         trusted=["type(name, bases, ns) creates the class; add_type registers it (register_type / get_registered_type: their own units)", "nested class statement: the class body's bindings become the core's attributes (engine)"]),
+    Unit("C20", "jsonargparse.typing:restricted_number_type", rnt_setup, rnt_post, rnt_raises, expect_cover=("return", "raise:ValueError"),
+         trusted=["extend_base_type: its own unit", "validation_fn: its own unit (the acceptance predicate)", "sorted() on (operator text, number) tuples, str(number), operator.__name__ evaluated by CPython on the concrete requests of the scenario"]),
+]
